@@ -44,30 +44,80 @@ var ttfSources = map[string][]byte{
 	"gosmallcaps":  gosmallcaps.TTF,
 }
 
-var quickFonts = []string{"debug-cff", "goregular", "gomono"}
-var thoroughFonts = []string{"debug-cff", "goregular", "gomono", "gobold", "goitalic", "gomedium", "gomonobold",
-	"gobolditalic", "gosmallcaps"}
+// The short loca format stores offset/2 in 16 bits: the largest glyf table it
+// can describe has 2*0xFFFF = 131070 bytes; 65534/65536 is where an encoder
+// that forgot the division would change format.  Sizes at and around both.
+var locaBoundaries = []int{65534, 65536, 65538, 131068, 131070, 131072, 131074}
+
+var quickFonts = []string{"debug-cff", "goregular", "gomono",
+	// one glyph, few, many; both outline kinds
+	"synth-ttf:glyphs=1", "synth-ttf:glyphs=2", "synth-ttf:glyphs=40", "synth-ttf:glyphs=3000",
+	"synth-cff:glyphs=1", "synth-cff:glyphs=2", "synth-cff:glyphs=40", "synth-cff:glyphs=2000",
+	// glyf table sizes at the loca format boundaries
+	"synth-ttf:glyphs=40:glyf=65534", "synth-ttf:glyphs=40:glyf=65536", "synth-ttf:glyphs=40:glyf=65538",
+	"synth-ttf:glyphs=40:glyf=131068", "synth-ttf:glyphs=40:glyf=131070", "synth-ttf:glyphs=40:glyf=131072",
+	"synth-ttf:glyphs=40:glyf=131074", "synth-ttf:glyphs=5:glyf=131072", "synth-ttf:glyphs=3000:glyf=131072",
+	"synth-ttf:glyphs=1:glyf=65534", "synth-ttf:glyphs=1:glyf=65536",
+	"goregular:glyf=131070", "goregular:glyf=131072", "goregular:glyf=131074",
+	"goregular:glyphs=300", "goregular:glyphs=300:glyf=65534", "goregular:glyphs=300:glyf=65536",
+}
+var thoroughFonts = []string{"gobold", "goitalic", "gomedium", "gomonobold", "gobolditalic", "gosmallcaps",
+	"synth-ttf:glyphs=65535", "synth-cff:glyphs=20000", "synth-ttf:glyphs=3:glyf=262144",
+	"gomono:glyf=131070", "gomono:glyf=131072", "gobold:glyf=131072", "goitalic:glyf=131072"}
 
 // makeFont returns the font to write and, for fonts read from a TrueType
 // file, the original file (whose outlines the written file must reproduce).
-func makeFont(name string) (f *sfnt.Font, orig []byte, err error) {
+// For synthetic TrueType fonts want holds the outlines the file must show.
+func makeFont(name string) (f *sfnt.Font, orig []byte, want map[int][]seg, err error) {
 	defer func() {
 		if e := recover(); e != nil {
 			err = fmt.Errorf("panic while building the font: %v", e)
 		}
 	}()
-	if name == "debug-cff" {
-		return debug.MakeSimpleFont(), nil, nil
+	spec, err := parseSpec(name)
+	if err != nil {
+		return nil, nil, nil, err
 	}
-	src, ok := ttfSources[name]
+	switch spec.base {
+	case "debug-cff":
+		if spec.glyphs != 0 || spec.glyf != 0 {
+			return nil, nil, nil, errors.New("debug-cff takes no parameters")
+		}
+		return debug.MakeSimpleFont(), nil, nil, nil
+	case "synth-ttf":
+		n := spec.glyphs
+		if n == 0 {
+			n = 40
+		}
+		f, want, err = synthTTF(n, spec.glyf)
+		return f, nil, want, err
+	case "synth-cff":
+		n := spec.glyphs
+		if n == 0 {
+			n = 40
+		}
+		if spec.glyf != 0 {
+			return nil, nil, nil, errors.New("synth-cff has no glyf table")
+		}
+		f, err = synthCFF(n)
+		return f, nil, nil, err
+	}
+	src, ok := ttfSources[spec.base]
 	if !ok {
-		return nil, nil, errors.New("unknown font " + name)
+		return nil, nil, nil, errors.New("unknown font " + name)
 	}
 	f, err = sfnt.Read(bytes.NewReader(src))
-	return f, src, err
+	if err == nil && spec.glyphs != 0 {
+		err = cutGlyf(f, spec.glyphs)
+	}
+	if err == nil && spec.glyf != 0 {
+		err = padGlyf(f, spec.glyf)
+	}
+	return f, src, nil, err
 }
 
 const sigFont = "c03-second-implementation-disagrees"
+const sigBuild = "c03-font-case-not-built"
 
 type seg struct {
 	op   xsfnt.SegmentOp
@@ -167,8 +217,12 @@ func cffSegs(g *cff.Glyph) []seg {
 // fontOracle writes the font and states the property on the bytes.
 func fontOracle(name string) (obs string, detail, sig string, stats map[string]int) {
 	stats = map[string]int{}
-	f, orig, err := makeFont(name)
+	f, orig, wantSegs, err := makeFont(name)
 	if err != nil {
+		if strings.Contains(name, ":") {
+			// a parameterised case that cannot be built tests nothing: say so
+			return "builderr", "the font of this case could not be built: " + err.Error(), sigBuild, stats
+		}
 		return "builderr", "", "", stats // not a statement about the writer
 	}
 	buf := &bytes.Buffer{}
@@ -209,6 +263,26 @@ func fontOracle(name string) (obs string, detail, sig string, stats map[string]i
 		return obs, "unexpected scaler type", sigRound, stats
 	}
 
+	// the glyph tables read the way the OpenType text describes them
+	if spec, _ := parseSpec(name); spec.glyf != 0 {
+		if rec, ok := info.Toc["glyf"]; !ok || int(rec.Length) != spec.glyf {
+			// the case would not be the boundary case it claims to be
+			return obs, fmt.Sprintf("the glyf table written has %d bytes, the font was built for %d", rec.Length, spec.glyf), sigLoca, stats
+		}
+	}
+	ng, err := glyphTablesWalk(out, stats)
+	if err != nil {
+		return obs, "independent reading of the glyph tables: " + err.Error(), sigLoca, stats
+	}
+	if ng != f.NumGlyphs() {
+		return obs, fmt.Sprintf("independent reading: maxp.numGlyphs = %d, the font has %d glyphs", ng, f.NumGlyphs()), sigLoca, stats
+	}
+	if nb, err := readBack(out); err != nil {
+		return obs, "sfnt.Read rejects the font it wrote: " + err.Error(), sigRound, stats
+	} else if nb != f.NumGlyphs() {
+		return obs, fmt.Sprintf("sfnt.Read finds %d glyphs in the file, the font has %d", nb, f.NumGlyphs()), sigRound, stats
+	}
+
 	// the second implementation
 	var d string
 	func() {
@@ -217,7 +291,7 @@ func fontOracle(name string) (obs string, detail, sig string, stats map[string]i
 				d = fmt.Sprintf("x/image panics on the written font: %v", e)
 			}
 		}()
-		d = compareWithXImage(f, out, orig, stats)
+		d = compareWithXImage(f, out, orig, wantSegs, stats)
 	}()
 	if d != "" {
 		return obs, d, sigFont, stats
@@ -225,7 +299,7 @@ func fontOracle(name string) (obs string, detail, sig string, stats map[string]i
 	return obs, "", "", stats
 }
 
-func compareWithXImage(f *sfnt.Font, out, orig []byte, stats map[string]int) string {
+func compareWithXImage(f *sfnt.Font, out, orig []byte, wantSegs map[int][]seg, stats map[string]int) string {
 	xf, err := xsfnt.Parse(out)
 	if err != nil {
 		return "x/image rejects the written font: " + err.Error()
@@ -314,6 +388,8 @@ func compareWithXImage(f *sfnt.Font, out, orig []byte, stats map[string]int) str
 			if err != nil {
 				continue
 			}
+		} else if wantSegs != nil {
+			want = wantSegs[gid]
 		} else if o, ok := f.Outlines.(*cff.Outlines); ok {
 			want = cffSegs(o.Glyphs[gid])
 			integral := true
@@ -345,13 +421,25 @@ func compareWithXImage(f *sfnt.Font, out, orig []byte, stats map[string]int) str
 func genFonts(run *vlib.Run, r *vlib.Rand, tier string) {
 	names := quickFonts
 	if tier == "thorough" {
-		names = thoroughFonts
+		names = append(append([]string(nil), quickFonts...), thoroughFonts...)
 	}
 	total := map[string]int{}
 	for _, name := range names {
 		line := "!font " + name
 		obs, detail, sig, stats := fontOracle(name)
-		idx := run.Add(line, obs, true, "kind:font", "font:"+name)
+		labels := []string{"kind:font", "font:" + name}
+		if spec, err := parseSpec(name); err == nil {
+			labels = append(labels, "fontbase:"+spec.base)
+			if spec.glyf != 0 {
+				labels = append(labels, fmt.Sprintf("glyf-size:%d", spec.glyf))
+			}
+			if _, isCFF := stats["walk-cff"]; isCFF {
+				labels = append(labels, "outlines:cff")
+			} else {
+				labels = append(labels, "outlines:glyf")
+			}
+		}
+		idx := run.Add(line, obs, true, labels...)
 		for k, v := range stats {
 			total[k] += v
 		}
@@ -363,6 +451,9 @@ func genFonts(run *vlib.Run, r *vlib.Rand, tier string) {
 }
 
 func runOracleOnly(line string) (impl, fail, sig string, err error) {
+	if strings.HasPrefix(line, "!concurrent ") {
+		return runConcurrentLine(line)
+	}
 	fs := strings.Fields(line)
 	if len(fs) != 2 || fs[0] != "!font" {
 		return "", "", "", errors.New("C03: unknown oracle-only case")
